@@ -527,7 +527,14 @@ func (d *Driver) runEvent(e Event, h abci.Header) (out *TxResult) {
 		r := d.App.Query(abci.RequestQuery{Path: "/app/simulate", Data: bz})
 		return &TxResult{Code: r.Code, Codespace: r.Codespace, Data: r.Value, Log: r.Log}
 	case "query":
-		r := d.App.Query(abci.RequestQuery{Path: e.Path, Data: e.Data, Height: e.Height, Prove: e.Prove})
+		qh := e.Height
+		if qh < 0 {
+			// relative to the last committed height: -1 = one block earlier (0 if there is none)
+			if qh = d.Height + qh; qh < 1 {
+				qh = 0
+			}
+		}
+		r := d.App.Query(abci.RequestQuery{Path: e.Path, Data: e.Data, Height: qh, Prove: e.Prove})
 		return &TxResult{Code: r.Code, Codespace: r.Codespace, Data: r.Value, Log: r.Log}
 	case "award":
 		ctx := d.App.Ctx(h)
